@@ -84,6 +84,15 @@ def find_unwrap_helper(F):
         calls = [(callee_name(t), t) for _, t in b.calls()]
         if ds == ["ok(p1)"] and len(calls) == 1 and calls[0][1].get("local_key") and calls[0][1]["target"] is None and describe(b, b.origin_operand(calls[0][1]["args"][0])) == "err(p1)":
             return path, calls[0][1]["local_key"]
+    # no wrapper (the match is written out at every use, e.g. by a macro): the diverging function that
+    # panics with the Display text of its only argument
+    for path, b in F.bodies.items():
+        if b.arg_count != 1 or b.j["kind"] == "closure" or not F.fns.get(path, {}).get("output", "").strip() == "!":
+            continue
+        names = [callee_name(t) for _, t in b.calls()]
+        disp = [t for _, t in b.calls() if callee_name(t).endswith("::new_display")]
+        if len(disp) == 1 and names and names[-1] == "core::panicking::panic_fmt" and describe(b, b.origin_operand(disp[0]["args"][0])) in ("p1", "mem:1", "local:1", "mem:error", "mem:err", "mem:e"):
+            return None, path
     return None, None
 
 
@@ -91,10 +100,10 @@ def rule_pairing(ctx, rule="C05-pair"):
     F = ctx.F
     global UW
     uw, panic_fn = find_unwrap_helper(F)
-    ctx.need(rule, "crate", "unwrap-helper", uw is not None, "no `Result -> value or panic(message of the error)` helper found", how="unwrap helper: %s" % uw)
-    if uw is None:
+    ctx.need(rule, "crate", "unwrap-helper", uw is not None or panic_fn is not None, "no `Result -> value or panic(message of the error)` helper found", how="unwrap helper: %s" % (uw or ("written out at each use; panics through %s" % panic_fn)))
+    if uw is None and panic_fn is None:
         return
-    UW = uw
+    UW = uw or panic_fn
     for nme in PAIRS:
         plain, tr = "LeanString::" + nme, "LeanString::try_" + nme
         b = F.bodies.get(plain)
@@ -106,7 +115,17 @@ def rule_pairing(ctx, rule="C05-pair"):
         want = "%s(%s(%s))" % (UW, tr, args)
         inlined = "ok(%s(%s))" % (tr, args)   # describe() shows a helper that did not exist on the reference tree by its result
         calls = [callee_name(t) for _, t in b.calls()]
-        ctx.ob(rule, plain, "plain=try.unwrap_with_msg", ds in ([want], [inlined]) and calls == [tr, UW], how="%s = try_%s(..).unwrap_with_msg()" % (nme, nme),
+        okp = ds in ([want], [inlined]) and calls == [tr, UW]
+        if not okp and calls == [tr, UW] and F.fns.get(plain, {}).get("output", "").strip() == "()":
+            # `self.try_x(..).unwrap_with_msg();` as a statement: nothing to return; the helper must still
+            # receive the try_ form's own result, which must receive this function's arguments
+            uwc = [t for _, t in b.calls() if callee_name(t) == UW]
+            okp = len(uwc) == 1 and describe(b, b.origin_operand(uwc[0]["args"][0])) == "%s(%s)" % (tr, args)
+        if not okp and ds == [inlined] and calls == [tr, panic_fn]:
+            # `match self.try_x(..) { Ok(v) => v, Err(e) => panic_with_msg(e) }`
+            pa = [describe(b, b.origin_operand(t["args"][0])) for _, t in b.calls() if callee_name(t) == panic_fn]
+            okp = pa == ["err(%s(%s))" % (tr, args)]
+        ctx.ob(rule, plain, "plain=try.unwrap_with_msg", okp, how="%s = try_%s(..).unwrap_with_msg()" % (nme, nme),
                detail="%s is %s (calls %s): the panicking form no longer fails exactly where and how the try_ form does" % (plain, ds, calls))
         f = F.fns.get(tr)
         if f:
@@ -129,7 +148,7 @@ def rule_pairing(ctx, rule="C05-pair"):
                 n += 1
                 names = [callee_name(t) for _, _, t in inlined_calls(b)]
                 seen, leaves, users, parent = ctx.cg.reach([b.path])
-                ok = "repr::Repr::from_str" in seen and (UW in names or UW in seen) and not [x for x in names if x in FORBIDDEN_CONSUMERS]
+                ok = "repr::Repr::from_str" in seen and (UW in names or UW in seen or panic_fn in names or panic_fn in seen) and not [x for x in names if x in FORBIDDEN_CONSUMERS]
                 ctx.ob(rule, b.path, "from=from_str.unwrap_with_msg", ok, how="Repr::from_str(text) consumed by unwrap_with_msg", detail="From<%s> calls %s" % (i["trait_args"][0], names))
     ctx.need(rule, "crate", "From-ctors", n >= 4, "only %d From<text> constructors" % n, how="%d From<text> constructors" % n)
     # nowhere is a ReserveError-carrying Result consumed by a method that panics with another message
